@@ -66,6 +66,13 @@ int32_t qb_sys_mmap_file_open(char *path, const char *file, size_t bytes,
 			       uint32_t file_flags);
 
 /**
+ * As qb_sys_mmap_file_open(), but a file that gets created is created
+ * with the given mode (qb_sys_mmap_file_open() uses 0600).
+ */
+int32_t qb_sys_mmap_file_open_2(char *path, const char *file, size_t bytes,
+				 uint32_t file_flags, mode_t mode);
+
+/**
  * Create a shared mamory circular buffer.
  *
  * @param fd an open file to use to back the shared memory.
